@@ -64,7 +64,7 @@ CLAIMS = {
          "5 C13"),
  "C14": ("proof (element < is a strict partial order that is a function of the two tuples only; == excludes <; derived operators) + refutation witness (known finding) + correspondence with a law-checking oracle",
          "Theorems C14_*: for every well-formed list the element-level < equals a function of the two stored tuples (C14_reference_less_depends_on_content_only: independent of memory, position, junk, capacity, fixed sizes), is irreflexive, asymmetric and transitive for arbitrary memory, a == b implies neither a < b nor b < a; vector < is irreflexive; > <= >= are derived as stated; field order is a strict weak order. C14_vector_less_transitive_refuted: vm_compute witness that vector < is not transitive (element < is a product order over the compared runs) = known finding less-product-order. "
-         "PARTIAL: vector-level content dependence on the fast path and 'vector < is lexicographical_compare under element <' are decided by the tie: all six operators on pairs of vectors/elements over a 2-3 value domain; the oracle checks the laws on the implementation's own results (irreflexive, asymmetric, transitive, consistent with ==, content-only, vector < = lexicographical_compare under the observed element <).",
+         "C14_vector_less_fast_path_is_lexicographic_on_content: on the whole-buffer path vector < is std::lexicographical_compare over the two lists of tuples ordered by their bytes, in every pair of represented states. PARTIAL: 'vector < is lexicographical_compare under element <' on the element-wise path is by definition of the model (elems_less) and decided by the tie: all six operators on pairs of vectors/elements over a 2-3 value domain; the oracle checks the laws on the implementation's own results (irreflexive, asymmetric, transitive, consistent with ==, content-only, vector < = lexicographical_compare under the observed element <).",
          "5 C14"),
  "C11": ("proof (reference copy-assignment reproduces the source tuple and reference swap exchanges the two tuples, for every list and run-table shape; structure and disjointness of the assign/swap run tables; iterators = index arithmetic) + correspondence on reference/iterator/algorithm histories with a content oracle",
          "Theorem C11_reference_assignment_copies_the_values: for every well-formed list and every shape of the run table, `target = source` (copy form) between element references of equal field sizes in different vectors leaves the target element holding exactly the source's tuple, the source untouched and every byte outside the target element's extent unchanged (AssignThm.v: each step of ElementTraits::assign writes the source byte at the same offset from the element start; RunsThm: the table covers every field; layouts of equally sized elements at storage-aligned addresses are translates). C11_reference_swap_exchanges_the_values (SwapThm.v): swap between references of equal field sizes in different vectors leaves each element holding exactly the other's tuple, nothing else touched - every list and run-table shape; uses C11_runs_do_not_overlap (the runs of calculate_consecutive_indices are pairwise disjoint). C11_reference_move_assignment_moves_the_values (MoveThm.v): the move form over the move run table - target gets the source's tuple, the source holds moved-from objects exactly in the not trivially move-assignable fields. C11_*_table_covers_every_field / _runs_hold_only_*: no field skipped, no non-trivial object moved byte-wise. C11_iterators_are_indices. "
